@@ -4,7 +4,7 @@ cd "$(dirname "$0")/.."
 ids=${@:-C01 C02 C03 C04 C05 C06 C07 C08 C09 C10 C11 C12 C13 C14 C15 C16 C17}
 for id in $ids; do
   t0=$(date +%s)
-  VERIF_HANG_DUMP=${VERIF_HANG_DUMP:-/root/keep/hangdumps} bin/check $id thorough 2>&1 \
+  VERIF_SEED=${VERIF_SEED:-0} VERIF_HANG_DUMP=${VERIF_HANG_DUMP:-/root/keep/hangdumps} bin/check $id thorough 2>&1 \
     | grep -E "thorough:|VIOLATION|INCONCLUSIVE|KNOWN-FINDING|^  " | cut -c1-400
   echo "== $id thorough exit=${PIPESTATUS[0]} took $(( $(date +%s) - t0 ))s"
 done
